@@ -32,6 +32,8 @@ import (
 // largest parameters), later doublings at most double what is there: Expand / Pack over logn steps
 // accumulate ≤ n·B, each Split / Merge level adds B. 4·N·B is a sound over-estimate for all of them;
 // with uniform phases a wrong coefficient is off by ≈ Q, so the slack costs no discrimination.
+const sigPackCoeffDomain = "C04/RingPacking.Split|Merge/coefficient-domain-input/processed-as-NTT-values"
+
 var packOps = []string{"Split", "Merge", "Expand", "Extract", "Repack", "ExtractNaive+Repack", "Extract+RepackNaive"}
 
 func packScenario(logN, minLogN int, ch rk.Chain, bound int) engine.Scenario {
@@ -45,8 +47,14 @@ func packScenario(logN, minLogN int, ch rk.Chain, bound int) engine.Scenario {
 		kp.levelP = p.MaxLevelP() - c.ChooseFree(p.MaxLevelP()+2, "LevelP")
 		kp.base2 = base2Alphabet[c.Choose(len(base2Alphabet), "BaseTwoDecomposition")]
 		variant := c.Choose(3, "variant") // op-specific: index set / gap / nil odd half
+		// keys generated compressed, expanded by the caller before the evaluator is built
+		kp.compressed = c.Bool("Compressed")
+		// operands in the coefficient domain (parameters with NTTFlag=false would produce them)
+		inNTT := c.Choose(2, "IsNTT") == 0
+		c.Cover("pack-keys", map[bool]string{false: "plain", true: "compressed-then-expanded"}[kp.compressed])
+		c.Cover("pack-IsNTT", fmt.Sprint(inNTT))
 		level := kp.levelQ                // the smaller parameter sets only have LevelQ+1 primes
-		cfg := fmt.Sprintf("RingPacking.%s %s variant=%d", op, kp, variant)
+		cfg := fmt.Sprintf("RingPacking.%s %s variant=%d IsNTT=%v", op, kp, variant, inNTT)
 		c.Note("%s", cfg)
 		c.Cover("op", "RingPacking."+op)
 		uni.Seed(c, name, cfg)
@@ -54,6 +62,12 @@ func packScenario(logN, minLogN int, ch rk.Chain, bound int) engine.Scenario {
 		if known != "" {
 			c.Skip(skipKnown)
 			return
+		}
+		// Split and Merge (hence Extract*, which splits first) work on NTT values unconditionally
+		// (SwitchCiphertextRingDegreeNTT, products with X^±1 in the NTT domain) and never look at
+		// ct.IsNTT, whereas Expand and Pack convert a coefficient-domain input: silent garbage.
+		if !inNTT && op != "Expand" && op != "Repack" {
+			known = sigPackCoeffDomain
 		}
 		sig := func(clause string) string {
 			if known != "" {
@@ -96,6 +110,28 @@ func packScenario(logN, minLogN int, ch rk.Chain, bound int) engine.Scenario {
 				rpk.GenRepackEvaluationKeys(rpk.Parameters[l], ski[l], kp.evk())
 			}
 			rpk.GenExtractEvaluationKeys(rpk.Parameters[minLogN], ski[minLogN], kp.evk())
+			if kp.compressed {
+				for a := range rpk.RingSwitchingKeys {
+					for b, k := range rpk.RingSwitchingKeys[a] {
+						l := a
+						if b > a {
+							l = b
+						}
+						if err := k.Expand(rpk.Parameters[l], nil); err != nil {
+							return fmt.Errorf("Expand ring-switching key %d->%d: %w", a, b, err)
+						}
+					}
+				}
+				for _, sets := range []map[int]rlwe.EvaluationKeySet{rpk.RepackKeys, rpk.ExtractKeys} {
+					for l, set := range sets {
+						for g, gk := range set.(*rlwe.MemEvaluationKeySet).GaloisKeys {
+							if err := gk.Expand(rpk.Parameters[l], nil); err != nil {
+								return fmt.Errorf("Expand Galois key %d at logN %d: %w", g, l, err)
+							}
+						}
+					}
+				}
+			}
 			eval := rlwe.NewRingPackingEvaluator(&rpk)
 			par := func(l int) rlwe.Parameters { return *rpk.Parameters[l].GetRLWEParameters() }
 			phase := func(l int, ct *rlwe.Ciphertext) []*big.Int {
@@ -103,7 +139,7 @@ func packScenario(logN, minLogN int, ch rk.Chain, bound int) engine.Scenario {
 			}
 			switch op {
 			case "Split":
-				ct := uniformCt(p, 1, level, true, name, cfg, "ct")
+				ct := uniformCt(p, 1, level, inNTT, name, cfg, "ct")
 				x := phase(logN, ct)
 				even := rlwe.NewCiphertext(par(logN-1), 1, level)
 				var odd *rlwe.Ciphertext
@@ -127,8 +163,8 @@ func packScenario(logN, minLogN int, ch rk.Chain, bound int) engine.Scenario {
 					results = append(results, result{"odd half", odd, logN - 1, wo})
 				}
 			case "Merge":
-				even := uniformCt(par(logN-1), 1, level, true, name, cfg, "even")
-				odd := uniformCt(par(logN-1), 1, level, true, name, cfg, "odd")
+				even := uniformCt(par(logN-1), 1, level, inNTT, name, cfg, "even")
+				odd := uniformCt(par(logN-1), 1, level, inNTT, name, cfg, "odd")
 				xe, xo := phase(logN-1, even), phase(logN-1, odd)
 				want := make([]*big.Int, N)
 				for w := 0; w < N/2; w++ {
@@ -155,7 +191,7 @@ func packScenario(logN, minLogN int, ch rk.Chain, bound int) engine.Scenario {
 				results = append(results, result{"merged", out, logN, want})
 			case "Expand":
 				pm := par(minLogN)
-				ct := uniformCt(pm, 1, level, variant != 2, name, cfg, "ct")
+				ct := uniformCt(pm, 1, level, inNTT && variant != 2, name, cfg, "ct")
 				x := phase(minLogN, ct)
 				logGap := []int{0, 1, 0}[variant]
 				cts, err := eval.Expand(ct, logGap)
@@ -169,7 +205,7 @@ func packScenario(logN, minLogN int, ch rk.Chain, bound int) engine.Scenario {
 					results = append(results, result{fmt.Sprintf("cts[%d]", i), cts[i], minLogN, constPoly(pm.N(), x[i])})
 				}
 			case "Extract", "ExtractNaive+Repack", "Extract+RepackNaive":
-				ct := uniformCt(p, 1, level, true, name, cfg, "ct")
+				ct := uniformCt(p, 1, level, inNTT, name, cfg, "ct")
 				x := phase(logN, ct)
 				idx := map[int]bool{}
 				switch variant {
@@ -250,7 +286,7 @@ func packScenario(logN, minLogN int, ch rk.Chain, bound int) engine.Scenario {
 					want[i] = new(big.Int)
 				}
 				for _, i := range keys {
-					cts[i] = uniformCt(pm, 1, level, true, name, cfg, "ct", i)
+					cts[i] = uniformCt(pm, 1, level, inNTT, name, cfg, "ct", i)
 					want[i] = phase(minLogN, cts[i])[0]
 				}
 				out, err := eval.Repack(cts)
